@@ -23,15 +23,21 @@
     drops hold costs > k) and the two places where candidates are accepted (the column loop for full-length
     occurrences, the last-column scan for occurrences that end at the end of the read).
 
-    NOT proved here (C02 is partial in this respect): the three cut-position clauses, error-free partial
-    occurrences for the types that may skip the beginning of the adapter (regular and non-internal 5',
-    'anywhere'; full copies are covered above), and that the k-mer prefilter lets such reads through
-    (C07; proved there for matches covering the whole adapter).
+    Also proved (Proofs/AlignCopyGen.v): the first clause for every remaining shape.  For all types whose
+    aligner may stop anywhere in the read (regular and non-internal 5', 'anywhere', and again regular 3' and
+    anchored 5'): an error-free occurrence adapter[rs, rs+L) = read[p, p+L) that starts at the beginning of
+    the adapter or of the read as the type allows (rs = 0 or p = 0), ends at the end of the adapter or --
+    where the type allows a partial adapter -- at the end of the read, and is at least the minimum overlap
+    long, is always reported; this includes a read lying inside an 'anywhere' adapter.  (The two types that
+    must end at the end of the read, anchored and non-internal 3', are covered by the with-indels clause.)
+
+    NOT proved here (C02 is partial in this respect): the three cut-position clauses, and that the k-mer
+    prefilter lets such reads through (C07; proved there for matches covering the whole adapter).
     Those rest on the correspondence (model = implementation for prefiltered match_to of all eight
     classes) and on the planted-occurrence / brute-force / cut-position oracle run against the
     implementation. *)
 From Coq Require Import ZArith List Bool Lia.
-From CV Require Import Generated.Scores Model.Align Model.Adapters Model.Kmer Proofs.AdapterProofs Proofs.KmerProofs Proofs.AlignDist Proofs.AlignOpt Proofs.AlignComplete Proofs.AlignFound.
+From CV Require Import Generated.Scores Model.Align Model.Adapters Model.Kmer Proofs.AdapterProofs Proofs.KmerProofs Proofs.AlignDist Proofs.AlignOpt Proofs.AlignComplete Proofs.AlignFound Proofs.AlignCopyGen.
 Import ListNotations.
 Open Scope Z_scope.
 
@@ -120,6 +126,32 @@ Theorem C02_occurrence_found_rightmost : forall thr ad read rs qs qe c,
 Proof. exact match_to_found_rightmost. Qed.
 Print Assumptions C02_occurrence_found_rightmost.
 
+(** the first clause for every admissible shape of an error-free occurrence: adapter[rs, rs+L) = read[p, p+L),
+    rs = 0 or p = 0 as the flags allow, ending at the end of the adapter or (partial adapter) of the read *)
+Theorem C02_locate_copy_found : forall thr cfg wq ref query rs p L,
+  1 <= indel_cost cfg -> stop_in_query cfg = true ->
+  (forall L0, 0 <= thr L0) -> (forall L0, thr L0 <= thr (zlen ref)) -> thr (zlen ref) <= zlen ref ->
+  (rs = 0 \/ (p = 0 /\ start_in_ref cfg = true)) -> (p = 0 \/ (rs = 0 /\ start_in_query cfg = true)) ->
+  (rs + L = zlen ref \/ (stop_in_ref cfg = true /\ p + L = zlen query)) ->
+  0 <= rs -> 0 <= p -> 1 <= L -> rs + L <= zlen ref -> p + L <= zlen query -> min_overlap cfg <= L ->
+  (forall t, 0 <= t < L -> loc_eqc cfg wq (znth 0 (loc_s1 cfg wq ref) (rs + t)) (znth 0 (loc_s2 cfg wq query) (p + t)) = true) ->
+  locate thr cfg wq ref query <> None.
+Proof. exact locate_copy_found. Qed.
+Print Assumptions C02_locate_copy_found.
+
+Theorem C02_copy_found : forall thr ad read rs p L,
+  uses_comparer ad = false -> class_reversed (a_type ad) = false -> stop_in_query (ad_cfg ad) = true ->
+  (forall L0, 0 <= thr L0) -> (forall L0, thr L0 <= thr (zlen (a_seq ad))) -> thr (zlen (a_seq ad)) <= zlen (a_seq ad) ->
+  (rs = 0 \/ (p = 0 /\ start_in_ref (ad_cfg ad) = true)) -> (p = 0 \/ (rs = 0 /\ start_in_query (ad_cfg ad) = true)) ->
+  (rs + L = zlen (a_seq ad) \/ (stop_in_ref (ad_cfg ad) = true /\ p + L = zlen read)) ->
+  0 <= rs -> 0 <= p -> 1 <= L -> rs + L <= zlen (a_seq ad) -> p + L <= zlen read -> a_min_overlap ad <= L ->
+  (forall t, 0 <= t < L ->
+     loc_eqc (ad_cfg ad) (a_wq ad) (znth 0 (loc_s1 (ad_cfg ad) (a_wq ad) (a_seq ad)) (rs + t))
+                                   (znth 0 (loc_s2 (ad_cfg ad) (a_wq ad) (ad_query ad read)) (p + t)) = true) ->
+  match_to thr ad read <> None.
+Proof. exact match_to_copy_found. Qed.
+Print Assumptions C02_copy_found.
+
 (** non-vacuity: ^ACGT against ACGTTT with zero errors allowed is removed exactly *)
 Example C02_exact_anchored :
   match_to_prefiltered (thr_of [0;0;0;0;0]) (mkAd Prefix [65;67;71;84] false false false 4 false) [65;67;71;84;84;84]
@@ -167,4 +199,21 @@ Proof.
   split; [vm_compute; reflexivity|]. split; [vm_compute; reflexivity|]. split.
   { eapply ed_weak; [apply ed_mismatches; vm_compute; reflexivity|]. vm_compute. discriminate. }
   split; [vm_compute; discriminate | vm_compute; discriminate].
+Qed.
+
+(** non-vacuity of C02_copy_found: -g ACGTACGTAC on TACGTACGGTT: the last seven adapter characters open the read
+    (rs = 3, p = 0, L = 7) *)
+Definition ex4_ad : adapter := mkAd Front [65;67;71;84;65;67;71;84;65;67] true false true 3 false.
+Definition ex4_read : list Z := [84;65;67;71;84;65;67;71;71;84;84].
+Example C02_nonvacuous_partial_front :
+  uses_comparer ex4_ad = false /\ class_reversed (a_type ex4_ad) = false /\ stop_in_query (ad_cfg ex4_ad) = true /\ start_in_ref (ad_cfg ex4_ad) = true /\
+  (forall t, 0 <= t < 7 ->
+     loc_eqc (ad_cfg ex4_ad) (a_wq ex4_ad) (znth 0 (loc_s1 (ad_cfg ex4_ad) (a_wq ex4_ad) (a_seq ex4_ad)) (3 + t))
+                                          (znth 0 (loc_s2 (ad_cfg ex4_ad) (a_wq ex4_ad) (ad_query ex4_ad ex4_read)) (0 + t)) = true) /\
+  match_to ex3_thr ex4_ad ex4_read <> None.
+Proof.
+  split; [reflexivity|]. split; [reflexivity|]. split; [vm_compute; reflexivity|]. split; [vm_compute; reflexivity|]. split.
+  - intros t Hr. assert (Hc : t = 0 \/ t = 1 \/ t = 2 \/ t = 3 \/ t = 4 \/ t = 5 \/ t = 6) by lia.
+    destruct Hc as [->|[->|[->|[->|[->|[->| ->]]]]]]; vm_compute; reflexivity.
+  - vm_compute. discriminate.
 Qed.
